@@ -306,6 +306,23 @@ PROPS['C15'] = {
     ],
 }
 
+PROPS['C12'] = {
+    'title': 'Closest and interior points lie on the geometry',
+    'level': 'proof',
+    'verus': [],
+    'kani_extra': ['--no-memory-safety-checks', '--no-overflow-checks', '--no-assertion-reach-checks'],
+    'kani': [
+        ('geo', 'c12.rs', r'^c12_k_(best_of_two|point_and_axis_line)$', 'complete', 'quick'),
+        ('geo', 'c12.rs', r'^c12_k_linestring_with_repeated_last_vertex$', 'bounded', 'quick'),
+    ],
+    'trusted': ['f64::hypot modelled (exact on axis-parallel arguments), robust::orient2d stubbed by its assumed contract',
+                'complete only for the stated lattice: Closest variants x points on the x-axis in [-6,6]; Point and axis-parallel Line against every lattice query point in [-6,6]^2'],
+    'undecided_clauses': [
+        'interior_point (sweep-line based) is NOT under contract',
+        'closest_point for Polygon / Rect / Triangle / Multi* (harness c12_k_rect_intersection_iff_intersects is kept but times out at 600 s), slanted lines, distance minimality within tolerance',
+    ],
+}
+
 NOT_APPLICABLE = {
     'C16': 'every clause is an identity between compositions of sin/cos/atan2/asin/sqrt/tan/ln in f64 (or calls into geographiclib-rs); Verus leaves float arithmetic uninterpreted and CBMC models libm as nondeterministic, so no contract stronger than "returns an f64" is provable',
     'C09': 'no contract within reach decides it: Verus cannot take compute_rdp / visvalingam (iterator adaptor chains, BinaryHeap, R-tree, closures without specs); Kani/CBMC does not finish symbolic execution of simplify on a 3-vertex line string even with a concrete tolerance (measured: > 900 s; the sqrt inside the distance kernel makes every distance symbolic and the recursion then runs over slices of symbolic length). The attempted contract is kept in contracts/kani/geo/c09_rdp.rs',
